@@ -1163,6 +1163,9 @@ func (c *SpecCtx) call(n *ECall) (Val, types.Type) {
 	case "allocated": // reference existed in the pre-state
 		a, _ := arg(0)
 		return B(sx("<=", a.(Sc).T, c.old.alc)), tBool
+	case "live": // reference exists in the CURRENT state (allocated() speaks about the pre-state)
+		a, _ := arg(0)
+		return B(sx("<=", a.(Sc).T, c.cur.alc)), tBool
 	case "fresh": // reference allocated by this call
 		a, _ := arg(0)
 		return B(sx(">", a.(Sc).T, c.old.alc)), tBool
